@@ -132,12 +132,12 @@ fn short(case: &Value) -> String {
 
 fn body(run: &Run, replay: Option<&Value>) {
     run.rule("a case is (driver, seed font + byte deviations | synthesised program | IFT tuple, configuration plan); every configuration of the plan is executed against the real API inside supervised worker processes; distinct = distinct (driver, result-shape digest); non-trivial = a draw emitted path commands, a paint emitted callbacks or a patch application returned a font");
-    run.assume("the worker-side monitor thread, SIGUSR1 backtrace and SIGABRT marker are trusted to attribute a stall/abort to the in-flight case; a stall is a single API call not returning within the per-call watchdog");
+    run.assume("the worker-side monitor thread, SIGUSR1 backtrace and SIGABRT marker are trusted to attribute a stall/abort to the in-flight case; a stall is a single API call that consumes the per-call watchdog of process CPU time (or 30x that in wall time) without returning");
     run.assume("memory oracle: `draw_memory_size` includes 4 bytes of alignment slack, so 'too small' is judged against need-4 (the sum of the carved arrays), not need-1");
     let quick = run.tier == Tier::Quick;
     let opts = SupOpts {
         workers: std::env::var("VERIF_THREADS").ok().and_then(|s| s.parse().ok()).unwrap_or(16),
-        watchdog_ms: run.tier.pick(6_000, 10_000),
+        watchdog_ms: run.tier.pick(4_000, 10_000),
         chunk: 4,
     };
     if let Some(case) = replay {
@@ -145,7 +145,7 @@ fn body(run: &Run, replay: Option<&Value>) {
         run_cases(run, "replay", 1, &|_| c.clone(), &SupOpts { workers: 1, ..opts });
         return;
     }
-    run.bound("watchdog_ms_per_call", json!(opts.watchdog_ms));
+    run.bound("watchdog_cpu_ms_per_call", json!(opts.watchdog_ms));
     let phases = match phases(quick) {
         Ok(p) => p,
         Err(e) => {
